@@ -85,4 +85,33 @@ theorem C16_no_ancillary_particle_head (g : Graph) (ctx : Ctx) (e i : Nat) (w : 
     have := List.all_eq_true.1 hall _ hmem
     rcases hp with ⟨t, ht⟩ | ht <;> (rw [ht] at hm; cases hpat : p.1 <;> simp_all [SPat.matches])
 
+/-! ### the "only suffix / counter headed additions" clause is false (recorded finding D11) -/
+
+def headIs (p : Speech → Bool) (c : Cand) : Bool :=
+  match c.chain with
+  | .bos :: .word _ _ w _ :: _ => p w.speech
+  | _ => false
+
+/-- The clause, as a check of one query: every candidate of `ctx` is a candidate of the normal context
+or begins with a word of the class that context adds. -/
+def onlyAdds (ctx : Ctx) (p : Speech → Bool) (input : Str) (d : Dict) (n fuel : Nat) : Bool :=
+  match getCandidates tables input d .normal [] n fuel, getCandidates tables input d ctx [] n fuel with
+  | some R, some R' => R'.all fun c => memStr c.text (R.map Cand.text) || headIs p c
+  | _, _ => true
+
+def d11Dict : Dict :=
+  Dict.mk [([12367, 12427, 12414], [⟨[36554], [12367, 12427, 12414], .noun .common⟩])] [[12367, 12427, 12414]]
+    [([12391], [⟨[12487], [12391], .particle .case⟩]), ([12399], [⟨[12495], [12399], .particle .adverbial⟩]),
+     ([12367, 12427, 12414, 12391], [⟨[36554, 20986], [12367, 12427, 12414, 12391], Speech.affix AffixVariant.suffix⟩])]
+    [[12391], [12399], [12367, 12427, 12414, 12391]]
+
+/-- **Refutation by a concrete witness** (kernel-evaluated): input くるまでは with 車/くるま, デ/で (case
+particle), ハ/は (adverbial particle) and the suffix 車出/くるまで.  In foreign-word context the suffix is
+merged at the head; it ends right before は, which makes the particle ハ mergeable there, and the
+candidate 車デハ — which begins with a noun, not a suffix — appears only in that context.  The same
+witness is replayed on the implementation by the C16 check (known finding D11-foreign). -/
+theorem C16_only_suffix_headed_additions_false :
+    onlyAdds .foreignWord Speech.isSuffix [12367, 12427, 12414, 12391, 12399] d11Dict 10 200 = false := by
+  decide +kernel
+
 end Chokan.Props.C16
